@@ -179,7 +179,7 @@ func e2eType(engine, spelling string, nn, array bool) (impl J, files map[string]
 	if engine == "mysql" {
 		ph = "?"
 	}
-	query := fmt.Sprintf("-- name: GetC :one\nSELECT c FROM t WHERE k = 1;\n\n-- name: ByC :many\nSELECT k FROM t WHERE c = %s;\n\n-- name: InsC :exec\nINSERT INTO t (k, c) VALUES (1, %s);\n\n-- name: All :many\nSELECT * FROM t;\n", ph, ph)
+	query := fmt.Sprintf("-- name: GetC :one\nSELECT c FROM t WHERE k = 1;\n\n-- name: ByC :many\nSELECT k FROM t WHERE c = %s;\n\n-- name: InsC :exec\nINSERT INTO t (k, c) VALUES (1, %s);\n\n-- name: All :many\nSELECT * FROM t;\n\n-- name: Filled :many\nSELECT k, coalesce(c, c) AS c FROM t;\n", ph, ph)
 	files = map[string]string{"schema.sql": schema, "query.sql": query, "sqlc.json": confV1(engine, "")}
 	res = generate(files)
 	impl = J{"ok": res.OK()}
@@ -202,6 +202,14 @@ func e2eType(engine, spelling string, nn, array bool) (impl J, files map[string]
 	}
 	if m := sum.method("All"); m != nil && len(m.Results) > 0 {
 		impl["star"] = m.Results[0]
+	}
+	// a NOT NULL expression under the column's own name, generated AFTER the plain queries of the package:
+	// whatever struct is returned, its C field must have the documented NOT NULL type
+	if m := sum.method("Filled"); m != nil && len(m.Results) > 0 {
+		if st := sum.structNamed(strings.TrimPrefix(m.Results[0], "[]")); st != nil && len(st.Fields) == 2 {
+			impl["coalesced"] = st.Fields[1].Type
+			impl["coalescedStruct"] = st.Name
+		}
 	}
 	return
 }
